@@ -20,7 +20,8 @@ LEVEL_TEXT = ("Machine-checked proof (Coq, closed under the global context; the 
               "size are universally quantified) that the model of SFTPServer._check_file answers every request "
               "(fuel bound proved: C32_terminates) and that, for an effective block size >= 256, the answer is the "
               "concatenation of the hash over each consecutive block of the requested range, the range ending at end "
-              "of file when the length is 0 or overruns, each block being read in pieces of at most the chunk size; "
+              "of file when the length is 0 or overruns, each block being read in pieces of at most the chunk size, "
+              "and that the algorithm is the first name of the client's list that the server's table has; "
               "the model is tied to sftp_server.py/sftp_file.py by running the real client against the real server "
               "with the server's reads and hash-object calls logged and compared with the model's definitions "
               "(vm_compute) every run, and the digests compared with hashlib.")
@@ -75,6 +76,7 @@ def install():
         return TraceHash
 
     sftp_handle.SFTPHandle.read = read
+    STATE["supported"] = list(orig_hash)
     sftp_server._hash_class = {k: tracing(v) for k, v in orig_hash.items()}
     STATE["installed"] = (sftp_handle, orig_read, sftp_server, orig_hash)
 
@@ -178,14 +180,48 @@ def groups_of(log):
     return groups, stray
 
 
-def call_check(rig, fobj, alg, start, length, bs):
-    """SFTPFile.check under a watchdog.  -> ('ok', digest) | ('ioerror', text) | ('exc', repr) | ('hang', None)"""
+ALG_IDS = {"md5": 1, "sha1": 2}
+OTHER_ALGS = ["sha256", "sha512", "MD5", "sha-1", "crc32", "md5 ", ""]
+ALG_LISTS = ["md5,sha1", "sha1,md5", "sha256,md5,sha1", "sha256,sha1,md5", "md5,sha256", "sha1,sha256,md5",
+             "sha512,sha256,sha1", "sha512,MD5,md5", "sha256", "MD5", "sha256,sha512", "md5,md5", "sha-1,sha1,md5",
+             "crc32,md5,sha1"]
+
+
+def alg_names(alg):
+    return alg.split(",")
+
+
+def alg_ids(alg):
+    return [ALG_IDS.get(n, 10 + (OTHER_ALGS.index(n) if n in OTHER_ALGS else len(OTHER_ALGS))) for n in alg_names(alg)]
+
+
+def first_supported(alg):
+    """The property: the first name of the client's list that the server's table has."""
+    sup = STATE.get("supported") or list(ALG_IDS)
+    for n in alg_names(alg):
+        if n in sup:
+            return n
+    return None
+
+
+def raw_check(fobj, alg, start, length, bs):
+    """The request SFTPFile.check sends, keeping what it discards: the reply's algorithm name."""
+    from paramiko.sftp import CMD_EXTENDED, int64
+    t, msg = fobj.sftp._request(CMD_EXTENDED, "check-file", fobj.handle, alg, int64(start), int64(length), bs)
+    ext = msg.get_text()
+    name = msg.get_text()
+    return ext, name, msg.get_remainder()
+
+
+def call_check(rig, fobj, alg, start, length, bs, raw=False):
+    """SFTPFile.check (or the same request sent raw) under a watchdog.
+    -> ('ok', digest | (ext, name, digest)) | ('ioerror', text) | ('exc', repr) | ('hang', None)"""
     del rig.log[:]
     box = {}
 
     def target():
         try:
-            box["v"] = fobj.check(alg, start, length, bs)
+            box["v"] = raw_check(fobj, alg, start, length, bs) if raw else fobj.check(alg, start, length, bs)
         except IOError as e:
             box["io"] = str(e)
         except BaseException as e:  # noqa
@@ -247,16 +283,25 @@ def check_one(ctx, rig, fobj, data, alg, q, findings, report=None, changed=False
     case = mcase if report is None else dict(report, failing_query=mcase)
     res = call_check(rig, fobj, alg, start, length, bs)
     blocks = spec_blocks(size, start, length, bs)
-    if res[0] == "hang":
-        findings.append("hang")
-        ctx.fail("check-file-hang", "check-file request not answered within %.0f s (server loop does not end)" % WATCHDOG,
-                 case=case, expected="a reply", observed="no reply")
-        return None
-    if res[0] == "exc":
-        findings.append("exc")
-        ctx.fail("check-file-exception", "check-file raised an unexpected exception", case=case, observed=res[1])
-        return None
+    use = first_supported(alg)
+    mcase["alg_ids"] = alg_ids(alg)
+    if use is None:
+        blocks = None           # "No supported hash types found"
+    saved_log = list(rig.log)
+    if res[0] == "ok" and use is not None and ("," in alg or size % 7 == 0):
+        # the same request once more, raw, for what SFTPFile.check discards: the algorithm named in the reply
+        res2 = call_check(rig, fobj, alg, start, length, bs, raw=True)
+        if res2[0] == "hang":
+            res = res2
+        elif res2[0] != "ok" or res2[1][1] != use or res2[1][2] != res[1] or res2[1][0] != "check-file":
+            findings.append("algname")
+            ctx.fail("check-file-wrong-algorithm",
+                     "the check-file reply does not name the first algorithm of the client's list that the server "
+                     "supports (or the raw request answers differently from SFTPFile.check)", case=case,
+                     expected={"algorithm": use}, observed={"reply": res2[1][:2] if res2[0] == "ok" else res2})
+        rig.log[:] = saved_log
     groups, stray = groups_of(list(rig.log))
+    aid = [ALG_IDS[use]] if use in ALG_IDS else []
     if res[0] == "ioerror":
         canon = [-1, 4]
         if blocks is not None:
@@ -265,24 +310,27 @@ def check_one(ctx, rig, fobj, data, alg, q, findings, report=None, changed=False
                      expected="%d digests" % len(blocks), observed=res[1])
         return mcase, canon
     digest = res[1]
-    canon = [len(groups)]
+    canon = aid + [len(groups)]
     for g in groups:
         canon.append(len(g))
         for o, n in g:
             canon += [o, n]
     if blocks is None:
         findings.append("status")
-        ctx.fail("check-file-small-block-accepted", "effective block size below 256 was not refused", case=case,
+        ctx.fail("check-file-unsupported-algorithm-accepted" if use is None else "check-file-small-block-accepted",
+                 "a request naming no supported algorithm was answered with digests" if use is None else
+                 "effective block size below 256 was not refused", case=case,
                  expected="IOError", observed=digest[:64])
-        return mcase, canon
-    h = getattr(hashlib, alg)
+        return mcase, [-2]
+    h = getattr(hashlib, use)
     want = b"".join(h(data[o:o + n]).digest() for o, n in blocks)
     if digest != want:
         findings.append("digest")
         ctx.fail("check-file-stale-after-file-changed" if changed else "check-file-wrong-digest",
                  ("after the file changed, a later check-file on the same handle does not hash the file as it is now "
                   "(%s over the consecutive blocks of the requested range)" if changed else
-                  "check-file digests differ from %s over the consecutive blocks of the requested range") % alg,
+                  "check-file digests differ from %s (the first supported name of the requested list) over the "
+                  "consecutive blocks of the requested range") % use,
                  case=case, expected={"blocks": blocks[:8], "nblocks": len(blocks), "digests": want[:64]},
                  observed={"len": len(digest), "digests": digest[:64], "reads": [r for g in groups for r in g][:12]})
     if stray:
@@ -334,8 +382,8 @@ def gen_seq(rng):
         bs = rng.choice([0, 0, 256, 1000, 4096, CHUNK, CHUNK + 1, rng.randrange(256, max(257, eff + 2))])
         if bs >= 256 and eff // bs > 100:
             bs = eff // 100 + 1
-        steps.append({"kind": "check", "alg": rng.choice(["md5", "sha1"]), "start": start, "length": length,
-                      "block_size": bs})
+        steps.append({"kind": "check", "alg": rng.choice(["md5", "sha1", "md5", "sha1", rng.choice(ALG_LISTS)]),
+                      "start": start, "length": length, "block_size": bs})
         if i < n - 1:
             k = rng.choice(["append-handle", "append-handle", "append-handle", "append-local", "overwrite-handle",
                             "none"])
@@ -436,6 +484,8 @@ def run_queries(ctx, rig_box, root, repo, sizes, nq, findings, cases):
             queries[1] = (0, 300000, 65536)  # overruns EOF
         for qi, q in enumerate(queries):
             alg = "md5" if (fi + qi) % 2 == 0 else "sha1"
+            if rng.random() < 0.35 or (fi, qi) in ((0, 2), (1, 2)):
+                alg = rng.choice(ALG_LISTS) if (fi, qi) != (0, 2) else "md5,sha1"
             r = check_one(ctx, rig_box[0], fobj, data, alg, q, findings)
             blocks = spec_blocks(size, *q)
             ctx.count((size, q, alg, data[:16]), nontrivial=bool(blocks),
@@ -530,11 +580,13 @@ def run(ctx):
         uninstall()
         shutil.rmtree(root, ignore_errors=True)
     try:
-        bad = ctx.model_mismatches("run_check", "(Z * Z * Z * Z * Z)",
-                                   [(coq((chunk, c["size"], c["start"], c["length"], c["block_size"])), canon)
+        sup = [ALG_IDS[n] for n in (STATE.get("supported") or ["sha1", "md5"]) if n in ALG_IDS]
+        bad = ctx.model_mismatches("run_check_alg", "(list Z * list Z * (Z * Z * Z * Z * Z))",
+                                   [(coq((sup, c["alg_ids"], (chunk, c["size"], c["start"], c["length"],
+                                                              c["block_size"]))), canon)
                                     for c, canon in cases], shard=200)
     except Exception as e:  # noqa  (the oracle's findings above are reported regardless)
-        ctx.disagree("model evaluation failed (run_check): " + str(e)[-600:])
+        ctx.disagree("model evaluation failed (run_check_alg): " + str(e)[-600:])
         bad = []
     for i in bad[:3]:
         ctx.disagree("_check_file's reads / digest count differ from the model", case=cases[i][0],
